@@ -1118,6 +1118,8 @@ class SmtpWorld(World):
         self.try_no[no] = k + 1
         sc = self.env_scripts.get(no, [])
         ms = dict(sc[k] if k < len(sc) else OK_MS)
+        nr = len(item[1].recipients)          # one scripted reply per recipient of THIS envelope
+        ms['rcpts'] = (list(ms['rcpts']) + [0] * nr)[:nr]
         if ms['enc'] == 0 and not (self.env_8bit.get(no) and not self.conn_script(c)['eightbit']):
             ms = dict(ms, enc=1)          # conversion only fails for 8-bit content on a 7-bit server
         elif ms['enc'] == 1 and self.env_8bit.get(no) and not self.conn_script(c)['eightbit']:
@@ -1255,7 +1257,9 @@ def py_reset_after_failure(log):
             dirty = w[1]
         elif t == W['rset']:
             dirty = None
-        elif t == W['mail'] and dirty is not None:
+        elif t == W['mail'] and dirty is not None and w[1] != dirty:
+            # (with PIPELINING the failed message's own buffered MAIL/RCPT may still be flushed, with
+            # the RSET, after its result was set: that is not the next message)
             return 'MAIL for envelope %d after the failed transaction of envelope %d without RSET' % (w[1], dirty)
     return None
 
@@ -1429,6 +1433,410 @@ def judge_smtp(ctx, runs):
             ctx.mismatch('smtp-client-exited', case, c in r['finished'], m_exited)
         if not (m_oaat and m_raf and m_contract):
             ctx.mismatch('smtp-model-checker-false', case, None, (m_oaat, m_raf, m_contract))
+    ctx.extra['traces_validated_against_impl'] = ctx.extra.get('traces_validated_against_impl', 0) + len(runs)
+
+
+# ====================================================================== 3b. connection re-use after every kind of failed transaction
+KEY_RESET = 'c19:reused-connection-not-reset-after-failed-transaction'
+
+
+def _ms(**kw):
+    return dict(OK_MS, **kw)
+
+
+# message kinds for the scripted server: (message script, envelope spec, needs a 7-bit-only server)
+PAIR_KINDS = collections.OrderedDict([
+    ('ok', (_ms(), {}, False)),
+    ('550+550', (_ms(rcpts=[1, 1], data=1), {}, False)),
+    ('450+450', (_ms(rcpts=[3, 3], data=1), {}, False)),
+    ('450+550', (_ms(rcpts=[3, 1], data=1), {}, False)),             # MIXED: reported per recipient
+    ('550+450', (_ms(rcpts=[1, 3], data=1), {}, False)),
+    ('450+550+450', (_ms(rcpts=[3, 1, 3], data=3), {}, False)),
+    ('550+550/354', (_ms(rcpts=[1, 1]), {}, False)),                 # the server still says 354: empty data
+    ('450+550/354', (_ms(rcpts=[3, 1]), {}, False)),
+    ('550+450+550/354', (_ms(rcpts=[1, 3, 1]), {}, False)),
+    ('some-rejected', (_ms(rcpts=[1, 0]), {}, False)),
+    ('some-rejected-mixed', (_ms(rcpts=[3, 1, 0]), {}, False)),
+    ('mail-rejected', (_ms(mail=1), {}, False)),
+    ('mail-rejected-4xx', (_ms(mail=3), {}, False)),
+    ('data-rejected', (_ms(data=1), {}, False)),
+    ('content-rejected', (_ms(body=1), {}, False)),
+    ('content-rejected-4xx', (_ms(body=3), {}, False)),
+    ('unencodable-recipient', (_ms(), dict(rcpts=['r%da', 'r%dü']), False)),
+    ('unencodable-sender', (_ms(), dict(sender='s%dü'), False)),
+    ('8bit-content-7bit-server', (_ms(), {}, True)),
+])
+
+
+def canon_value(x):
+    rep = getattr(x, 'reply', None)
+    if isinstance(x, Exception):
+        return ('exc', type(x).__name__, getattr(rep, 'code', None))
+    return ('reply', getattr(x, 'code', None))
+
+
+def canon_outcome(oc):
+    if oc is None:
+        return ('none',)
+    if oc[0] == 'ok':
+        if isinstance(oc[1], dict):
+            return ('ok',) + tuple(sorted((k, canon_value(v)) for k, v in oc[1].items()))
+        return ('ok', canon_value(oc[1]))
+    return canon_value(oc[1])
+
+
+def pair_cfg(kinds, pipe, lmtp, first_env=0):
+    seven = any(PAIR_KINDS[k][2] for k in kinds)
+    cs = dict(connect=1, handshake=0, hs_stage='ehlo', flavour='close', pipe=pipe, eightbit=0 if seven else 1, hold=0)
+    cfg = dict(size=1, idle=7, nattempts=len(kinds), conn_scripts=[cs], lmtp=lmtp, first_env=first_env,
+               env_scripts={}, env_8bit={}, env_spec={}, kinds=list(kinds),
+               no_model=any('unencodable' in k for k in kinds))
+    for i, k in enumerate(kinds):
+        ms, spec, seven_k = PAIR_KINDS[k]
+        cfg['env_scripts'][str(first_env + i)] = [dict(ms)]
+        cfg['env_8bit'][str(first_env + i)] = bool(seven_k)
+        if spec:
+            cfg['env_spec'][str(first_env + i)] = dict(spec)
+    return cfg
+
+
+def run_sequence(cfg):
+    """the messages one after the other (each attempt() returns before the next is made) through a
+    pool of size 1 with connection re-use"""
+    return run_smtp_case(cfg, [[['A']] for _ in cfg['kinds']])
+
+
+_solo_cache = {}
+
+
+def solo_outcome(kind, pipe, lmtp, seven, no):
+    """the same message, alone, on a fresh connection to the same scripted server"""
+    key = (kind, pipe, lmtp, seven, no)
+    if key not in _solo_cache:
+        cfg = pair_cfg([kind], pipe, lmtp, first_env=no)
+        if seven:
+            cfg['conn_scripts'][0]['eightbit'] = 0
+        r = run_smtp_case(cfg, [[['A']]])
+        _solo_cache[key] = (canon_outcome(r['outcomes'].get(no)), r['fails'])
+    return _solo_cache[key]
+
+
+def metamorphic(r, kinds, solo, fails, what):
+    """every message's result on the (possibly re-used) connection = its result on a fresh one"""
+    failed_before = False
+    for i, k in enumerate(kinds):
+        got = canon_outcome(r['outcomes'].get(i))
+        want = solo(i, k)
+        if got != want:
+            key = KEY_RESET if failed_before else 'c19:result-differs-from-fresh-connection'
+            fails.append((key, '%s: message %d (%s) after %r: result %r, on a fresh connection %r' % (what, i, k, kinds[:i], got, want)))
+        if k != 'ok':
+            failed_before = True
+
+
+def pairs_stream(ctx):
+    names = [k for k in PAIR_KINDS if k != 'ok']
+    runs = []
+    for lmtp in (0, 1):
+        for pipe in (0, 1):
+            seqs = [[a, 'ok'] for a in names]
+            seqs += [[a, names[(j + 3) % len(names)], 'ok'] for j, a in enumerate(names)]
+            seqs += [['ok', a, 'ok'] for a in names[::3]] + [[a, 'some-rejected'] for a in names[1::4]]
+            for kinds in seqs:
+                cfg = pair_cfg(kinds, pipe, lmtp)
+                r = run_sequence(cfg)
+                r['cfg'] = cfg
+                seven = cfg['conn_scripts'][0]['eightbit'] == 0
+                metamorphic(r, kinds, lambda i, k: solo_outcome(k, pipe, lmtp, seven, i)[0], r['fails'],
+                            '%s pipelining=%d' % ('LMTP' if lmtp else 'SMTP', pipe))
+                for i, k in enumerate(kinds):
+                    for key, what in solo_outcome(k, pipe, lmtp, seven, i)[1]:
+                        r['fails'].append((key, 'alone on a fresh connection (%s): %s' % (k, what)))
+                runs.append(r)
+                ctx.count('reuse-after-failure:' + kinds[0])
+                ctx.count('reuse-sequences-' + ('lmtp' if lmtp else 'smtp'))
+                if any(sum(1 for w in log if w[0] == W['mail']) >= 2 for log in r['wirelog'].values()):
+                    ctx.count('reuse-sequence-shared-one-connection')
+    judge_smtp(ctx, runs)
+
+
+# ---------------------------------------------------------------------- the real slimta.smtp.server.Server as next hop
+class DuplexEnd(object):
+    """one end of an in-memory connection"""
+
+    def __init__(self, world, fd, on_send=None):
+        self.world = world
+        self.fd = fd
+        self.buf = collections.deque()
+        self.peer = None
+        self.waiter = None
+        self.closed = False
+        self.eof = False
+        self.on_send = on_send
+
+    def fileno(self):
+        return self.fd
+
+    def getpeername(self):
+        return ('192.0.2.1', 25)
+
+    def getsockname(self):
+        return ('192.0.2.2', 40000)
+
+    def recv(self, n=4096):
+        while True:
+            if self.buf:
+                c = self.buf.popleft()
+                if len(c) > n:
+                    self.buf.appendleft(c[n:]); c = c[:n]
+                return c
+            if self.eof or self.closed:
+                return b''
+            self.waiter = GAsyncResult()
+            try:
+                self.waiter.get()
+            finally:
+                self.waiter = None
+
+    def sendall(self, data):
+        self.world.activity += 1
+        data = bytes(data)
+        if self.on_send:
+            self.on_send(data)
+        p = self.peer
+        if p.closed:
+            raise socket.error(errno.EPIPE, 'peer closed')
+        p.buf.append(data)
+        if p.waiter is not None and not p.waiter.ready():
+            p.waiter.set(None)
+
+    def send(self, data):
+        self.sendall(data)
+        return len(data)
+
+    def close(self):
+        if not self.closed:
+            self.closed = True
+            p = self.peer
+            p.eof = True
+            if p.waiter is not None and not p.waiter.ready():
+                p.waiter.set(None)
+            if self.waiter is not None and not self.waiter.ready():
+                self.waiter.set(None)
+
+
+REAL_KINDS = collections.OrderedDict([
+    ('ok', {}),
+    ('550+550', dict(rcpts=['nobody%da', 'nobody%db'])),
+    ('450+450', dict(rcpts=['busy%da', 'busy%db'])),
+    ('450+550', dict(rcpts=['busy%da', 'nobody%db'])),
+    ('550+450', dict(rcpts=['nobody%da', 'busy%db'])),
+    ('450+550+450', dict(rcpts=['busy%da', 'nobody%db', 'busy%dc'])),
+    ('some-rejected', dict(rcpts=['nobody%da', 'r%db'])),
+    ('some-rejected-mixed', dict(rcpts=['busy%da', 'nobody%db', 'r%dc'])),
+    ('mail-rejected', dict(sender='badsender%d')),
+    ('data-rejected', dict(sender='nodata%d')),
+    ('content-rejected', dict(refuse=True)),
+    ('unencodable-recipient', dict(rcpts=['r%da', 'r%dü'])),
+    ('unencodable-sender', dict(sender='s%dü')),
+])
+
+
+class RealServerWorld(SmtpWorld):
+    """StaticSmtpRelay + SmtpRelayClient talking to the real slimta.smtp.server.Server over an
+    in-memory connection; the server's handlers reject by address / content"""
+
+    def __init__(self, pipe, env_spec, first_env=0):
+        SmtpWorld.__init__(self, 1, 7, [], {}, {}, env_spec=env_spec)
+        self.pipe = pipe
+        self.nenv = first_env
+        self.accepted = []         # (sender, recipients, X-Env) of every message the server took
+        self.servers = []
+        self.ends = {}
+
+    def __exit__(self, *a):
+        for g in self.servers:
+            if not g.dead:
+                g.kill(block=False)
+        SmtpWorld.__exit__(self, *a)
+
+    def create_conn(self, address):
+        from slimta.smtp.server import Server
+        c = self.cur()
+        log = self.wirelog.setdefault(c, [])
+        log.append((W['connect'],))
+        world = self
+        state = dict(sender=None, rcpts=[])
+
+        def on_send(data):
+            for line in data.split(b'\r\n'):
+                up = line.upper()
+                if up.startswith(b'MAIL FROM:'):
+                    state['cur'] = addr_no(line)
+                    log.append((W['mail'], state['cur']))
+                elif up.startswith(b'RCPT TO:'):
+                    log.append((W['rcpt'], addr_no(line)))
+                elif up == b'DATA':
+                    log.append((W['data'], state.get('cur', -1)))
+                elif up == b'RSET':
+                    log.append((W['rset'],))
+                elif up == b'QUIT':
+                    log.append((W['quit'],))
+
+        class Handlers(object):
+            def MAIL(self, reply, address, params):
+                if address.startswith('badsender'):
+                    reply.code, reply.message = '550', '5.7.1 scripted-reject sender'
+                else:
+                    state['sender'], state['rcpts'] = address, []
+
+            def RCPT(self, reply, address, params):
+                if address.startswith('busy'):
+                    reply.code, reply.message = '450', '4.2.1 scripted-reject mailbox busy'
+                elif address.startswith('nobody'):
+                    reply.code, reply.message = '550', '5.1.1 scripted-reject no such user'
+                else:
+                    state['rcpts'].append(address)
+
+            def DATA(self, reply):
+                if (state['sender'] or '').startswith('nodata'):
+                    reply.code, reply.message = '554', '5.7.1 scripted-reject data'
+
+            def HAVE_DATA(self, reply, data, err):
+                data = data or b''
+                no = -1
+                for line in data.split(b'\r\n'):
+                    if line.lower().startswith(b'x-env:'):
+                        no = int(line.split(b':')[1])
+                if b'X-Refuse-Me' in data:
+                    reply.code, reply.message = '554', '5.6.0 scripted-reject content'
+                    log.append((W['body'], no))
+                    return
+                if not data:
+                    log.append((W['empty'], state.get('cur', -1)))
+                else:
+                    log.append((W['body'], no))
+                world.accepted.append((state['sender'], tuple(state['rcpts']), no))
+
+            def RSET(self, reply):
+                state['sender'], state['rcpts'] = None, []
+
+        fd = 2000 + len(self.ends)
+        cli = DuplexEnd(self, fd, on_send)
+        srv = DuplexEnd(self, fd + 500)
+        cli.peer, srv.peer = srv, cli
+        _close = cli.close
+
+        def close_and_log():
+            if not cli.closed:
+                log.append((W['close'],))
+                world.open_conns.discard(cli)
+            _close()
+        cli.close = close_and_log
+        self.ends[fd] = cli
+        server = Server(srv, Handlers(), address=('192.0.2.2', 40000))
+        server.extensions.drop('SMTPUTF8')
+        if not self.pipe:
+            server.extensions.drop('PIPELINING')
+
+        def serve():
+            try:
+                server.handle()
+            except Exception:
+                pass
+            finally:
+                srv.close()
+        self.servers.append(gevent.spawn(serve))
+        self.open_conns.add(cli)
+        self.max_open = max(self.max_open, len(self.open_conns))
+        return cli
+
+    def wait_read(self, fd, timeout=None, timeout_exc=None):
+        e = self.ends[fd]
+        if e.buf or e.eof:
+            return
+        raise timeout_exc
+
+    def note_poll(self, c, item):
+        self.polls.setdefault(c, []).append(None if item is None else (item[0].slot, item[1].no, OK_MS))
+
+    def result_kind(self, ok, value):
+        if ok:
+            if isinstance(value, dict) and value and all(isinstance(v, Exception) for v in value.values()):
+                return 3
+            return 0
+        return 1
+
+
+def run_real_sequence(kinds, pipe, first_env=0):
+    spec = {first_env + i: dict(REAL_KINDS[k]) for i, k in enumerate(kinds)}
+    w = RealServerWorld(pipe, spec, first_env)
+    fails = []
+    with w:
+        w.start()
+        for _ in kinds:
+            w.do(('A',))
+            w.settle()
+            oracle_settled(w, 1, 'real server, after an attempt', fails)
+        for _ in range(6):
+            if not w.timers:
+                break
+            w.advance(max(min(t[0] for t in w.timers) - w.now, 1))
+            w.settle()
+        if [g for g in w.attempt_greenlets if not g.dead]:
+            fails.append(('c19:attempt-never-answered', 'real server: an attempt is still blocked'))
+        for c, log in sorted(w.wirelog.items()):
+            e1 = py_one_at_a_time(log)
+            if e1:
+                fails.append(('c19:two-messages-on-one-connection', 'real server, client %d: %s; wire %r' % (c, e1, log)))
+            e2 = py_reset_after_failure(log)
+            if e2:
+                fails.append((KEY_RESET, 'real server, client %d: %s; wire %r' % (c, e2, log)))
+        fails.extend(w.problems)
+        return dict(outcomes=dict(w.outcomes), accepted=list(w.accepted), fails=fails, raw=list(w.raw),
+                    wirelog={c: list(v) for c, v in w.wirelog.items()}, nclients=len(w.clients))
+
+
+_real_solo = {}
+
+
+def real_solo(kind, pipe, no):
+    key = (kind, pipe, no)
+    if key not in _real_solo:
+        r = run_real_sequence([kind], pipe, first_env=no)
+        _real_solo[key] = (canon_outcome(r['outcomes'].get(no)), r['accepted'], r['fails'])
+    return _real_solo[key]
+
+
+def realserver_stream(ctx):
+    names = [k for k in REAL_KINDS if k != 'ok']
+    runs = []
+    for pipe in (0, 1):
+        seqs = [[a, 'ok'] for a in names] + [[a, names[(j + 2) % len(names)], 'ok'] for j, a in enumerate(names)]
+        seqs += [['ok', a, 'ok'] for a in names[::2]]
+        for kinds in seqs:
+            r = run_real_sequence(kinds, pipe)
+            case = dict(kind='realserver', kinds=kinds, pipe=pipe)
+            metamorphic(r, kinds, lambda i, k: real_solo(k, pipe, i)[0], r['fails'], 'real Server pipelining=%d' % pipe)
+            want = [m for i, k in enumerate(kinds) for m in real_solo(k, pipe, i)[1]]
+            if r['accepted'] != want:
+                r['fails'].append((KEY_RESET if any(k != 'ok' for k in kinds) else 'c19:next-hop-accepted-other-messages',
+                                   'real Server accepted %r, each message alone on a fresh connection gives %r' % (r['accepted'], want)))
+            for m in r['accepted']:
+                if addr_no(m[0] or '') != m[2] or any(addr_no(x) != m[2] for x in m[1]):
+                    r['fails'].append(('c19:two-messages-on-one-connection', 'real Server accepted a message mixing envelopes: %r' % (m,)))
+            ctx.evaluated(('realserver', tuple(kinds), pipe), nontrivial=True)
+            ctx.count('realserver-sequences')
+            ctx.count('events-validated', len(r['raw']))
+            if any(sum(1 for x in log if x[0] == W['mail']) >= 2 for log in r['wirelog'].values()):
+                ctx.count('realserver-connection-reused')
+            for key, what in r['fails']:
+                ctx.fail(key, case, what)
+            r.update(size=1, idle=7)
+            runs.append((r, case))
+    mouts = ctx.model.batch('c19_run', [[enc_cfg(1, 7), [enc_ev(ev) for ev, cur, snap in r['raw']]] for r, case in runs])
+    for (r, case), mo in zip(runs, mouts):
+        validate_trace(ctx, 'realserver-pool-trace', case, None, r['raw'], mo)
     ctx.extra['traces_validated_against_impl'] = ctx.extra.get('traces_validated_against_impl', 0) + len(runs)
 
 
@@ -1945,6 +2353,8 @@ def run(ctx):
     scripted_stream(ctx, 500 if q else 10000, 14 if q else 18, 0.0)
     scripted_stream(ctx, 400 if q else 8000, 14 if q else 18, 0.35)
     smtp_stream(ctx, 300 if q else 5000, 10 if q else 14)
+    pairs_stream(ctx)
+    realserver_stream(ctx)
     http_stream(ctx, 150 if q else 2500)
     tot_s = tot_t = 0
     allx = True
@@ -1985,10 +2395,28 @@ def replay(ctx, rep):
         r = run_scripted_case(case['size'], case['idle'], case['script'])
     elif kind == 'smtp':
         r = run_smtp_case(case['cfg'], case['script'])
+        if case['cfg'].get('kinds'):
+            cfg = case['cfg']
+            seven = cfg['conn_scripts'][0]['eightbit'] == 0
+            metamorphic(r, cfg['kinds'], lambda i, k: solo_outcome(k, cfg['conn_scripts'][0]['pipe'], cfg.get('lmtp', 0), seven, i)[0],
+                        r['fails'], 'replay')
+            print('messages: %r' % (cfg['kinds'],))
+            for i in sorted(r['outcomes']):
+                print('result of message %d: %r' % (i, canon_outcome(r['outcomes'][i])))
         for c, log in sorted(r['wirelog'].items()):
             print('wire of client %s: %r' % (c, log))
         for c, pl in sorted(r['polls'].items()):
             print('polls of client %s: %r' % (c, pl))
+    elif kind == 'realserver':
+        r = run_real_sequence(case['kinds'], case['pipe'])
+        metamorphic(r, case['kinds'], lambda i, k: real_solo(k, case['pipe'], i)[0], r['fails'], 'real Server pipelining=%d' % case['pipe'])
+        r['script'] = case['kinds']
+        print('messages: %r' % (case['kinds'],))
+        for i in sorted(r['outcomes']):
+            print('result of message %d: %r' % (i, canon_outcome(r['outcomes'][i])))
+        print('the server accepted: %r' % (r['accepted'],))
+        for c, log in sorted(r['wirelog'].items()):
+            print('wire of client %s: %r' % (c, log))
     elif kind == 'http':
         r = run_http_case(case['size'], case['idle'], case['flavours'], case['script'])
         for c, log in sorted(r['wirelog'].items()):
